@@ -508,9 +508,19 @@ def gen(ctx):
         lit = wr.PATH_SAFE if isinstance(wr.PATH_SAFE, str) else ""
     if wr.url_quote is not up.quote:
         problems.append("webob.request.url_quote is no longer urllib.parse.quote")
-    if (wd.SCHEME_RE.pattern, wd.SCHEME_RE.flags & ~re.UNICODE) != ("^[a-z]+:", re.I):
-        problems.append("SCHEME_RE changed to %r flags %r: the hand model scheme_re_search is for ^[a-z]+: with re.I"
-                        % (wd.SCHEME_RE.pattern, wd.SCHEME_RE.flags))
+    # SCHEME_RE: the pattern text must be ^[a-z]+: under IGNORECASE (with or without ASCII); which characters the
+    # class [a-z] matches under the live flags is enumerated with CPython's own engine and regenerated
+    sflags = wd.SCHEME_RE.flags
+    if wd.SCHEME_RE.pattern != "^[a-z]+:" or not (sflags & re.I) or (sflags & ~(re.I | re.A | re.U)):
+        problems.append("SCHEME_RE changed to %r flags %r: the hand model scheme_re_search is for ^[a-z]+: with "
+                        "re.I [| re.A]" % (wd.SCHEME_RE.pattern, sflags))
+    import sys
+    cls = re.compile("[a-z]", sflags & (re.I | re.A))
+    members = [ord(c) for c in cls.findall("".join(chr(i) for i in range(sys.maxunicode + 1)))]
+    ascii_letters = [c for c in range(128) if chr(c).isalpha()]
+    if [c for c in members if c < 128] != ascii_letters:
+        problems.append("the class [a-z] of SCHEME_RE no longer matches exactly the ASCII letters below U+0080")
+    extra = [c for c in members if c >= 128]
     if wr.BaseRequest.url_encoding.fget(wr.BaseRequest({})) != "UTF-8":
         problems.append("default url_encoding is no longer UTF-8")
     if not {"latin-1", "ascii", "iso-8859-1"} <= set(wr._LATIN_ENCODINGS) or \
@@ -523,9 +533,12 @@ def gen(ctx):
            "   urllib.parse._ALWAYS_SAFE of the running CPython.  Do not edit. *)",
            "From Coq Require Import NArith List String.", "Require Import Webob.Lib.Val.",
            "Definition PATH_SAFE : str := H \"%s\"%%string." % safe.hex(),
-           "Definition ALWAYS_SAFE : str := H \"%s\"%%string." % always.hex()]
+           "Definition ALWAYS_SAFE : str := H \"%s\"%%string." % always.hex(),
+           "(* non-ASCII code points matched by the class [a-z] of SCHEME_RE under its live flags *)",
+           "Definition SCHEME_ALPHA_EXTRA : str := (%s)%%list." % " :: ".join(["%d%%N" % c for c in extra] + ["nil"])]
     fw.write_if_changed(os.path.join(fw.COQ, "Gen", "C13_tables.v"), "\n".join(out) + "\n")
-    ctx.extra["tables"] = {"PATH_SAFE": lit, "ALWAYS_SAFE": always.decode("ascii")}
+    ctx.extra["tables"] = {"PATH_SAFE": lit, "ALWAYS_SAFE": always.decode("ascii"), "SCHEME_RE_flags": int(sflags),
+                           "SCHEME_ALPHA_EXTRA": extra}
     return problems
 
 
